@@ -489,6 +489,9 @@ def gen_case(rng, idx, big):
     if kind == "few_scalars":
         m, ub, cplb = max(2, m), int([2, 3, 5][int(rng.integers(0, 3))]), 2e-10
     data = gen_points(rng, n, m, kind, scale)
+    if isinstance(idx, int) and idx % 11 == 7:
+        # a proportion of 1 or more is legal: no cell is ever large enough to be split (cell-size stop rule) -- not a percentage
+        cplb = [1.0, 1.5, 25.0][(idx // 11) % 3]
     return {"id": idx, "count_ubound": ub, "cplb": cplb, "m": m, "kind": kind, "n": n,
             "int_dtype": bool(kind in ("int_small", "int_wide") and rng.random() < .3),
             "data": [float(x) for x in data.reshape(-1)]}
